@@ -425,29 +425,31 @@ def send_validate(ctx, trace_file, only, name="TraceSend"):
     return n
 
 
-def refine_validate(ctx, n, only=None):
+def refine_validate(ctx, n, only=None, kind="mix"):
     """(C, refinement) executions of the scenario WSConn.quick.cfg model-checks, replayed through WSConn's OWN actions by
     TraceRefine.tla (one action per hook event, unlogged steps silent): each execution must be a behaviour of WSConn."""
     trace = ctx.path("refine.ndjson")
-    rep = ctx.drive("refine", ["-n", n, "-seed", ctx.seed, "-conn-trace", trace], timeout=1800)
+    rep = ctx.drive("refine", ["-n", n, "-seed", ctx.seed, "-conn-trace", trace, "-kind", kind], timeout=1800)
     ctx.impl_traces += rep.get("evaluations", 0)
     # one TLC run per (role, scenario): "-n" = the executions with a fifth actor N calling CloseNow (Extra "N" in the configuration)
-    parts = {k: ctx.path("refine_%s.ndjson" % k) for k in ("client", "server", "client-n", "server-n")}
+    # "-ctx" = the executions whose Writer and Ping contexts the application cancels at seeded moments (CtxProcs = {A, P})
+    parts = {k: ctx.path("refine_%s.ndjson" % k) for k in ("client", "server", "client-n", "server-n", "client-ctx", "server-ctx")}
     fh = {k: open(v, "w") for k, v in parts.items()}
-    cur, role, withn = [], None, False
+    cur, role, kind = [], None, ""
 
     def flush():
-        nonlocal cur, role, withn
+        nonlocal cur, role, kind
         if cur and role is not None:
-            fh[role + ("-n" if withn else "")].write("".join(cur))
-        cur, role, withn = [], None, False
+            fh[role + kind].write("".join(cur))
+        cur, role, kind = [], None, ""
     for l in open(trace):
         if '"TraceReset"' in l:
             flush()
         elif '"ConnNew"' in l:
             role = "client" if json.loads(l).get("a") == 1 else "server"
-        elif '"Actor"' in l and json.loads(l).get("s") == "N":
-            withn = True
+        elif '"Actor"' in l:
+            a = json.loads(l).get("s")
+            kind = "-n" if a == "N" else "-ctx" if a == "X" else kind
         cur.append(l)
     flush()
     for f in fh.values():
